@@ -1,4 +1,5 @@
 import OasisProofs.Helpers.CodecNode
+import OasisProofs.Helpers.CodecQuote
 import Generated.CborFacts
 /-
 C16 — untrusted bytes are decoded or rejected, never crash the node  (PARTIAL).
@@ -21,7 +22,7 @@ and every decoder built on them (transactions, commitments, descriptors, quotes,
 -/
 set_option linter.unusedSimpArgs false
 namespace OasisProofs.C16
-open OasisModel.Codec OasisProofs.CodecBytes OasisProofs.CodecLemmas
+open OasisModel.Codec OasisProofs.CodecBytes OasisProofs.CodecLemmas OasisProofs.CodecQuote
 
 /-! ## 1. No read past the input, canonical acceptance
 
@@ -300,6 +301,90 @@ example : (verifyProof 0 [some [1, 1, 9, 0, 0x80, 0x80, 2], none, none]).1.calls
 example : (verifyProof 0 [some [1, 1, 9, 0, 0x80, 0x80, 2]]).2 = .error .malformedProof := by
   simp [verifyProof, verify, decodeEntryA, VStats.enter, maxProofDepth, unmarshalNodeA, byteAt, decodeInternalA,
     le16At, toBytes, decodeLeafSlotA, hashSize, PTree.ofLeafSlot]
+
+/-! ## 7. PCS attestation quote framing (`Quote.UnmarshalBinaryWithTrailing` and the length-prefixed
+nesting below it: header, report body, signature data, [v4 envelope,] QE report certification data:
+auth data, certification data type / size)
+
+`parseQuoteI` (OasisModel/Codec/Quote.lean) logs every slice expression `data[a:b]` / fixed-width
+read the Go decoder evaluates, on every path. For EVERY input and therefore every declared size
+(all 2^16 / 2^32 values of every length field, at every nesting level): each logged expression is
+in range of the (sub)slice it is evaluated on, the only allocation is bounded by the input, an
+accepted quote was read from a prefix of the input, and every size it declares fits into the input
+(so sizes ≥ 2^31, and the sizes ≥ 2^32 - offset on which 32-bit arithmetic would wrap, are
+rejected). Tied to the Go code by the codecdrv correspondence (`quote` operations: verdict class,
+consumed length, declared sizes). PEM / x509 decoding of the certificate chain and everything in
+`Quote.Verify` is outside this model (exploration only). -/
+
+/-- No slice expression evaluated while decoding a quote is out of range (in Go: no run-time panic
+`slice bounds out of range` / `index out of range`), whatever sizes the input declares. -/
+theorem quote_no_out_of_range_slice (d : Bytes) (allowTrailing : Bool) :
+    ∀ r ∈ (parseQuoteI d allowTrailing).reads, r.a ≤ r.b ∧ r.b ≤ r.lim ∧ r.lim ≤ d.length :=
+  (parseQuoteI_bounded d allowTrailing).reads
+
+/-- The decoder's only `make` (the QE authentication data) never exceeds the input length, also on
+paths that fail later. -/
+theorem quote_alloc_bounded (d : Bytes) (allowTrailing : Bool) :
+    (parseQuoteI d allowTrailing).allocs.sum ≤ d.length :=
+  (parseQuoteI_bounded d allowTrailing).allocs
+
+/-- An accepted quote was read from a prefix of the input, all of it unless trailing data is allowed. -/
+theorem quote_consumed_le (d : Bytes) (allowTrailing : Bool) (f : QFrame)
+    (h : parseQuoteFrame d allowTrailing = .ok f) :
+    f.consumed ≤ d.length ∧ f.consumed = 48 + f.bodyLen + 4 + f.sigLen ∧
+    (f.bodyLen = 384 ∨ f.bodyLen = 584) ∧ (allowTrailing = false → f.consumed = d.length) := by
+  obtain ⟨_, _, _, _, hb, _, hc, hl, ht, _⟩ := parseQuoteI_ok d allowTrailing f h
+  exact ⟨hl, hc, hb, ht⟩
+
+/-- Every size an accepted quote declares (signature data length, QE authentication data size,
+certification data size: the frame's fields ARE the declared little-endian fields) fits into the
+input, nested inside the enclosing length. -/
+theorem quote_declared_sizes_bounded (d : Bytes) (allowTrailing : Bool) (f : QFrame)
+    (h : parseQuoteFrame d allowTrailing = .ok f) :
+    f.sigLen = le32At d (48 + f.bodyLen) ∧ f.cdSize = le32At d (f.cdOff - 4) ∧ f.cdType = le16At d (f.cdOff - 6) ∧
+    48 + f.bodyLen + 4 + f.sigLen ≤ d.length ∧
+    48 + f.bodyLen + 4 + 584 + f.authSize ≤ f.cdOff ∧
+    f.cdOff + f.cdSize ≤ 48 + f.bodyLen + 4 + f.sigLen := by
+  obtain ⟨_, _, _, _, _, hs, hc, hl, _, _, ha, hcd, _⟩ := parseQuoteI_ok d allowTrailing f h
+  obtain ⟨_, h1, h2⟩ := parseQuoteI_fields d allowTrailing f h
+  exact ⟨hs, h1, h2, by omega, ha, by omega⟩
+
+/-- Huge declared sizes are rejected: a quote shorter than 2^31 bytes that declares a signature
+data length or a certification data size of 2^31 or more (up to 2^32-1, including every value on
+which `uint32(offset)+size` would wrap) is never accepted. -/
+theorem quote_huge_declared_size_rejected (d : Bytes) (allowTrailing : Bool) (f : QFrame)
+    (hlen : d.length < 2 ^ 31) (h : parseQuoteFrame d allowTrailing = .ok f) :
+    le32At d (48 + f.bodyLen) < 2 ^ 31 ∧ le32At d (f.cdOff - 4) < 2 ^ 31 := by
+  obtain ⟨h1, h2, _, h4, h5, h6⟩ := quote_declared_sizes_bounded d allowTrailing f h
+  rw [← h1, ← h2]
+  omega
+
+/-- The certification data of an accepted quote is a PPID block of exactly 404 bytes (types 1-3) or
+a PEM chain (type 5); every other type is rejected. -/
+theorem quote_certification_data_kinds (d : Bytes) (allowTrailing : Bool) (f : QFrame)
+    (h : parseQuoteFrame d allowTrailing = .ok f) :
+    (f.isChain = true ∧ f.cdType = 5) ∨ (f.isChain = false ∧ f.cdSize = 404 ∧ 1 ≤ f.cdType ∧ f.cdType ≤ 3) := by
+  obtain ⟨_, _, _, _, _, _, _, _, _, _, _, _, hc, hp⟩ := parseQuoteI_ok d allowTrailing f h
+  cases hch : f.isChain
+  · exact Or.inr ⟨rfl, hp hch⟩
+  · exact Or.inl ⟨rfl, hc.1 hch⟩
+
+-- Non-vacuity: a synthetic version 3 quote (SGX body, PPID certification data) is accepted, the same
+-- quote declaring a certification data size of 2^32-16 or a signature length of 2^31 is rejected.
+def sampleQuote (sigLen cdSize : Bytes) : Bytes :=
+  [3, 0, 2, 0, 0, 0, 0, 0, 0, 0, 0, 0] ++ qeVendorIntel ++ List.replicate 20 0 ++ List.replicate 384 0 ++ sigLen ++
+  List.replicate (64 + 64 + 384 + 64) 0 ++ [0, 0, 1, 0] ++ cdSize ++ List.replicate 404 0
+
+set_option maxRecDepth 100000 in
+example : parseQuoteFrame (sampleQuote [0xdc, 3, 0, 0] [0x94, 1, 0, 0]) false =
+    .ok { version := 3, teeType := 0, bodyLen := 384, sigLen := 988, authSize := 0, cdType := 1, cdSize := 404,
+          cdOff := 1020, isChain := false, consumed := 1424 } := by rfl
+set_option maxRecDepth 100000 in
+example : parseQuoteFrame (sampleQuote [0xdc, 3, 0, 0] [0xf0, 0xff, 0xff, 0xff]) false = .error .qeCdSize := by rfl
+set_option maxRecDepth 100000 in
+example : parseQuoteFrame (sampleQuote [0, 0, 0, 0x80] [0x94, 1, 0, 0]) true = .error .trailing := by rfl
+set_option maxRecDepth 100000 in
+example : (sampleQuote [0xdc, 3, 0, 0] [0x94, 1, 0, 0]).length = 1424 := by rfl
 
 /-! ## Regenerated facts (tools/gen cborfacts, rewritten from /repo on every run)
 
